@@ -16,6 +16,8 @@ package parser
 import (
 	"encoding/json"
 	"fmt"
+	"os"
+	"strings"
 	"testing"
 	"time"
 
@@ -81,6 +83,18 @@ func sameInts(a, b []int) bool {
 	return true
 }
 
+func sameStrings(a, b []string) bool {
+	if len(a) != len(b) {
+		return false
+	}
+	for i := range a {
+		if a[i] != b[i] {
+			return false
+		}
+	}
+	return true
+}
+
 func isPrefix(a, b string) bool { return len(a) < len(b) && b[:len(a)] == a }
 
 func splitSig(text string, exp, got []string) string {
@@ -125,6 +139,7 @@ func TestVerifSqlLexSplit(t *testing.T) {
 		t.Fatal(err)
 	}
 	hangs := 0
+	xcheckOnly := os.Getenv("VERIF_LEX_MODE") == "xcheck"
 	stats := map[string]int{}
 	n, err := verifkit.EachCase(func(i int, raw json.RawMessage) error {
 		var c lexCase
@@ -156,6 +171,13 @@ func TestVerifSqlLexSplit(t *testing.T) {
 			stats["scanner_no_rule_byte"]++
 		}
 
+		if xcheckOnly {
+			if len(res.Devs) > 0 {
+				res.Obs = obs
+				out.Write(res)
+			}
+			return nil
+		}
 		// 2. SplitStatementToPieces
 		exp := make([]string, 0, len(c.Pc))
 		for _, p := range c.Pc {
@@ -205,21 +227,25 @@ func TestVerifSqlLexSplit(t *testing.T) {
 			}
 		case len(exp) == 0 && len(got) == 1 && (got[0] == c.S || got[0]+";" == c.S):
 			stats["blank_text_passed_through"]++ // nothing can be executed either way
+		case !c.Wf:
+			// the text ends inside a string / quoted identifier / block comment: the grammar has no reading of it
+			stats["illformed_accepted_not_judged"]++
 		default:
-			same := len(exp) == len(got)
-			if same {
-				for k := range exp {
-					if exp[k] != got[k] {
-						same = false
-					}
+			same := sameStrings(exp, got)
+			if !same && len(exp) > 0 && len(exp) == len(got) {
+				// a well-formed text whose last ';' is not a separator ends in a line comment; dropping that ';'
+				// (and only that) changes a comment, not a statement
+				e2 := append([]string{}, exp...)
+				g2 := append([]string{}, got...)
+				e2[len(e2)-1] = strings.TrimRight(e2[len(e2)-1], ";")
+				g2[len(g2)-1] = strings.TrimRight(g2[len(g2)-1], ";")
+				if sameStrings(e2, g2) && strings.HasSuffix(c.S, ";") && (len(c.Sp) == 0 || c.Sp[len(c.Sp)-1] != len(c.S)-1) {
+					same = true
+					stats["trailing_semicolon_inside_comment_trimmed"]++
 				}
 			}
 			if !same {
-				sig := splitSig(c.S, exp, got)
-				if !c.Wf {
-					sig += " (text ends inside a string or comment)"
-				}
-				res.Dev(sig, "text %q: specification pieces %q, SplitStatementToPieces %q", c.S, exp, got)
+				res.Dev(splitSig(c.S, exp, got), "text %q: specification pieces %q, SplitStatementToPieces %q", c.S, exp, got)
 			}
 			stats["compared"]++
 			if len(exp) > 1 {
